@@ -72,6 +72,13 @@ impl TimeZone {
             None
         };
 
+        // Without a local time type and without a footer rule, the file doesn't define any offset
+        if local_time_types.is_empty() && extra_rule.is_none() {
+            return Err(TimeZoneError::InvalidTzFile(
+                "No local time types and no footer",
+            ));
+        }
+
         Ok(Self {
             transitions,
             local_time_types,
